@@ -142,7 +142,10 @@ struct CsdoRun : NodeEnv {
         else if (k == "step") serverStep((int)(o.arg(0) % nCsdo), (uint32_t)o.arg(1));
         else if (k == "run") { int n = (int)(o.arg(0) % nCsdo); int guard = 400; while (v.ok && c[n].busy && c[n].pendingFrame && guard-- > 0) serverStep(n, 0); }
         else if (k == "tick") { w.tick(0, (uint64_t)o.arg(0)); harvest(mk, "tick"); }
-        else if (k == "unsol") { int n = (int)(o.arg(0) % nCsdo); Frame r(rxId(n), 8, o.b); bool wasBusy = c[n].busy; if (wasBusy) { c[n].malformed = true; c[n].exp = E_ANY; } w.rx(0, r); w.canproc(0); cov.frames_in++; harvest(mk, "unsolicited server frame"); cov.hit(wasBusy ? "unsolicited-while-busy" : "unsolicited-while-idle"); }
+        else if (k == "unsol") { int n = (int)(o.arg(0) % nCsdo); Frame r(rxId(n), 8, o.b); bool wasBusy = c[n].busy;
+            // an abort that names another object is not an answer to this transfer (e.g. a late abort of an earlier one): an expedited transfer must go on unaffected
+            bool foreignAbort = wasBusy && r.d[0] == 0x80 && (r.u16(1) != c[n].idx || r.d[3] != c[n].sub) && c[n].size <= 4 && !c[n].malformed;
+            if (foreignAbort) { cov.hit("foreign-abort-during-expedited-transfer"); nontrivial = true; } else if (wasBusy) { c[n].malformed = true; c[n].exp = E_ANY; } w.rx(0, r); w.canproc(0); cov.frames_in++; harvest(mk, "unsolicited server frame"); cov.hit(wasBusy ? "unsolicited-while-busy" : "unsolicited-while-idle"); }
         else if (k == "apptmr") { w.cur = 0; if (o.arg(0)) { int16_t id = COTmrCreate(&N()->Tmr, (uint32_t)o.arg(1), (uint32_t)o.arg(2) + 1, appCb, nullptr); if (id >= 0) { appTimers.push_back(id); for (auto &x : c) x.slotsBefore++; } } else if (!appTimers.empty()) { (void)COTmrDelete(&N()->Tmr, (int16_t)appTimers.back()); appTimers.pop_back(); for (auto &x : c) x.slotsBefore--; } }
         else if (k == "nmt") { uint8_t cs = (uint8_t)o.arg(0); for (auto &x : c) if (x.busy && (cs == 129 || cs == 130)) { x.exp = E_ANY; cov.hit("reset-while-busy"); nontrivial = true; } w.rx(0, Frame(0, 2, {cs, 0})); w.canproc(0); harvest(mk, "NMT command");
             if ((cs == 129 || cs == 130) && v.ok) { for (int n = 0; n < nCsdo; n++) if (c[n].busy) { fail("csdo/busy-survives-reset", "the transfer in progress was neither completed nor aborted by the NMT reset (no completion callback)"); return; } } if (cs == 2) m = 4; else if (cs == 1) m = 3; else m = 2; }
@@ -175,7 +178,7 @@ Plan gen_csdo(Rng &r, bool thorough) {
         if (mode < 5) p.ops.push_back(Op("run", {n}));
         else if (mode < 8) { int steps = (int)r.range(0, 12); for (int i = 0; i < steps; i++) { int cc = (int)r.below(8); if (cc < 5) p.ops.push_back(Op("step", {n, r.chance(1, 3) ? r.range(1, (int64_t)tmo * f / 1000 + 2) : 0})); else if (cc == 5) p.ops.push_back(Op("tick", {r.range(1, 5)})); else if (cc == 6) p.ops.push_back(Op("req", {n, (int64_t)r.below(2), r.range(1, 20), 10, 0, 0, 0, 0, 0})); else p.ops.push_back(Op("req", {1 - n, (int64_t)r.below(2), r.range(1, 40), 50, 0, 0, 1, 3, 0})); } if (r.chance(1, 2)) p.ops.push_back(Op("run", {n})); }
         else if (mode == 8) { int steps = (int)r.range(0, 4); for (int i = 0; i < steps; i++) p.ops.push_back(Op("step", {n, 0})); p.ops.push_back(Op("nmt", {r.pick<int64_t>({130, 129, 130, 2, 1})})); }
-        else { std::vector<uint8_t> b; for (int j = 0; j < 8; j++) b.push_back(r.byte()); if (r.chance(1, 2)) b[0] = r.pick<uint8_t>({0x80, 0x60, 0x43, 0x41, 0x00, 0x20}); p.ops.push_back(Op("unsol", {n}, b)); p.ops.push_back(Op("run", {n})); }
+        else { std::vector<uint8_t> b; for (int j = 0; j < 8; j++) b.push_back(r.byte()); if (r.chance(1, 2)) b[0] = r.pick<uint8_t>({0x80, 0x80, 0x60, 0x43, 0x41, 0x00, 0x20}); if (b[0] == 0x80 && r.chance(1, 2)) { b[1] = 0x55; b[2] = 0x21; b[3] = 9; } p.ops.push_back(Op("unsol", {n}, b)); p.ops.push_back(Op("run", {n})); }
         // idle gap around the previous transfer's time-out, then possibly the next transfer
         p.ops.push_back(Op("tick", {r.chance(1, 2) ? r.range(0, 3) : (int64_t)tmo * f / 1000 + r.range(-2, 2)}));
         if (r.chance(1, 8)) { std::vector<uint8_t> b; for (int j = 0; j < 8; j++) b.push_back(r.byte()); p.ops.push_back(Op("unsol", {n}, b)); }
